@@ -130,6 +130,13 @@ def scenarios(ctx, n, malformed_share=0.3):
     out.append((sp + ["new cab"] + [f"open i0 p{i}.cab" for i in range(1, 6)] + [f"append i0 h{i} h{i + 1}" for i in range(4)] +
                 [f"extract i0 h0 {j} o{j}" for j in (0, 2, 4)] + ["close i0 h0"] + [f"close i0 h{i}" for i in range(1, 5)] + ["destroy i0"],
                 dict(family="cab.split-fixture", how="valid", kind="cab")))
+    # two cabinets on one decompressor, extraction switching between them (the decoder's input handle is closed and another
+    # file opened each time): every fault point
+    from lib import minicab
+    ca, _ = minicab.build([(0, [(b"cabinet-A-data", 14)])], [dict(name=b"a.txt", length=14, offset=0, folder=0)])
+    cb, _ = minicab.build([(0, [(b"cabinet-B-data!", 15)])], [dict(name=b"b.txt", length=15, offset=0, folder=0)])
+    out.append(([f"file a.cab {ca.hex()}", f"file b.cab {cb.hex()}", "new cab", "open i0 a.cab", "open i0 b.cab", "extract i0 h0 0 o0", "extract i0 h1 0 o1", "extract i0 h0 0 o2",
+                 "extract i0 h1 0 o3", "close i0 h0", "close i0 h1", "destroy i0"], dict(family="cab.switch-cabinets", how="directed", kind="cab", exhaustive=True)))
     return out
 
 _calls_re = re.compile(r"calls=alloc:(\d+),open:(\d+),read:(\d+),write:(\d+),seek:(\d+),tell:(\d+)")
